@@ -251,7 +251,7 @@ func scenarios() []*scenario {
 				}
 				return &instance{threads: [][]call{
 					{{"ReadDocument#1", rd(0)}},
-					{{"SetApduMaxLe", func() string { return fmt.Sprint(r.SetApduMaxLe(100)) }}, {"SkipImages", func() string { r.SkipImages(); return "done" }}},
+					{{"SetApduMaxLe", func() string { return fmt.Sprint(r.SetApduMaxLe(180)) }}, {"SkipImages", func() string { r.SkipImages(); return "done" }}},
 					{{"ReadDocument#2", rd(2)}},
 				}, final: func() string {
 					return fmt.Sprintf("%s status=%d/%d loaders=%v", chip.Observe(), st.n, st.dgs, cms.VerifLoaderCalls())
@@ -293,7 +293,7 @@ func scenarios() []*scenario {
 }
 
 func s5(id, title string, fail bool) *scenario {
-	return &scenario{id: id, title: title, syncBound: [2]int{2, 3}, stmtBound: [2]int{2, 3},
+	return &scenario{id: id, title: title, syncBound: [2]int{2, 3}, stmtBound: [2]int{1, 2},
 		make: func(e *env) *instance {
 			cms.VerifSetStubFail(fail)
 			v := mobile.NewVerifier()
@@ -316,8 +316,8 @@ func s5(id, title string, fail bool) *scenario {
 			pre := func() string {
 				err := mobile.PreloadCscaCertPool()
 				p, e2 := mobile.VerifCscaState()
-				n := 0
-				if p != nil {
+				n := -1
+				if e2 == nil && p != nil { // after a failed initialisation the variable holds a typed nil pointer
 					n = len(p.All())
 				}
 				return fmt.Sprintf("err=%v state=(%s certs=%d, err=%v)", err, ident(p), n, e2)
